@@ -27,7 +27,7 @@ def run(chk):
         except Exception:  # noqa
             continue
         if 'panic' in impl:
-            chk.extra_cov['skipped_panics'] = chk.extra_cov.get('skipped_panics', 0) + 1
+            chk.panic_record(r, impl['panic'], rp)
             continue
         inp = parse_input(r.inp)
         tol = Tol(inp)
@@ -71,7 +71,7 @@ def run(chk):
         chk.count()
         rp = {'op': r.op, 'ids': [r.id], 'family': r.family, 'record': r.line[:3000]}
         if r.res and r.res[0] == 'PANIC':
-            chk.extra_cov['skipped_panics'] = chk.extra_cov.get('skipped_panics', 0) + 1
+            chk.panic_record(r, ' '.join(r.res), rp)
             continue
         t = Tok(r.res)
         inp = parse_input(r.inp)
